@@ -91,7 +91,7 @@ type Tree struct {
 // Driver is the check specific jq text: Defs are function definitions, Tree is an
 // expression applied to the root decode value that yields exactly one value. $c.max
 // is the tree size cap (0: none), $c.maxbits the cap on the size of one value; walkdv
-// outputs every decode value below the input; sized(f) applies the caps to the walk
+// outputs every decode value below the input; sized($c; f) applies the caps to the walk
 // and maps f over the values (or yields "SKIP:..." / {nondv: .} for a root that is not
 // a decode value, e.g. the binary returned by the bytes format).
 // Batch (optional) is applied once to the array of all root values of a batch (null
@@ -106,7 +106,7 @@ type Driver struct {
 const commonDefs = `
 def walkdv: ., (.[]? | select(_exttype == "decode_value") | walkdv);
 def errstr: "ERR:" + (if type == "string" then . else tojson end);
-def sized(f):
+def sized($c; f):
   if _exttype != "decode_value" then {nondv: .}
   else
     ( [walkdv]
